@@ -376,8 +376,8 @@ func init() {
 			}
 		}
 		half := len(st) / 2
-		_, _ = gmsl.ResolveConflicts(ver, st, evs, c18UserIDForSender, notRejected)
-		_, _ = gmsl.ResolveConflictsNew(ver, [][]gmsl.PDU{st[:half], st[half:]}, evs, c18UserIDForSender, notRejected)
+		_, _ = gmsl.ResolveConflicts(ver, st, st, c18UserIDForSender, notRejected)
+		_, _ = gmsl.ResolveConflictsNew(ver, [][]gmsl.PDU{st[:half], st[half:]}, st, c18UserIDForSender, notRejected)
 		_, _ = gmsl.ResolveConflictsNew(ver, [][]gmsl.PDU{st, st[half:]}, st[:half], c18UserIDForSender, notRejected)
 		_ = gmsl.ResolveStateConflicts(st, st, c18UserIDForSender)
 		_ = gmsl.ReverseTopologicalOrdering(evs, gmsl.TopologicalOrderByAuthEvents)
